@@ -29,6 +29,16 @@ def random_config(rng, want_class=None, timeout_choices=(None, 3600, 3600, 0)):
         # the core alone: no service module, hence no services and no required data beyond the host name result
         cfg.modules = ("iauth",)
         cfg.services = []
+    # where the log lines go: nowhere (no logs section), everything including debug output to one file, or split by facility
+    r3 = random.Random(r2.random())
+    k = r3.random()
+    if k < 0.25:
+        cfg.logs = '    "*.*" "file:all.log";'
+    elif k < 0.35:
+        cfg.logs = '    "*.>=warning" "file:warn.log";\n    "iauth_xquery.debug" "file:x.log";\n    "iauth.debug,command" ( "file:i.log", "file:all.log" );\n    "iauth_class.*" "file:class.log";'
+    elif k < 0.4:
+        # entries that name no facility / no severity the daemon knows (a destination that cannot be opened is fatal by design: not used)
+        cfg.logs = '    "bogus.*" "file:b.log";\n    "*.nosuchlevel" "file:c.log";\n    "iauth.debug,bogus" "file:d.log";\n    "*.<=info" ( "file:e.log", "file:e.log" );'
     return cfg
 
 
